@@ -482,6 +482,18 @@ def run_case(case, ctx):
                                detail=dict(where='shared_step_generator_other_order', config=acfg, extra=dict(ops=case['ops'])),
                                where='shared_step_generator_other_order')
                     return
+                # ... and yet another object is merely *constructed* on the shared generator, with step options given next to it (the
+                # generator is the caller's object: nobody's constructor retunes it); configuration i is then evaluated again
+                try:
+                    nd.Derivative(FUNS[sorted(FUNS)[0]], step=gen, num_steps=3, step_ratio=1.37, offset=2, num_extrap=1, scale=7.0)
+                except Exception:
+                    pass
+                got = call(oi, pool[i]['points'][0])
+                ctx.count('shared_generator_calls')
+                ctx.count('history_calls_compared')
+                if not _compare(ctx, 'shared_generator_after_another_object_was_built_on_it_with_options', i, 0, got, extra=dict(ops=case['ops'])):
+                    return
+                last_point[i], last_result[i] = 0, got
                 # ... and a Limit on the same generator instance, right after the derivative objects used it (a step generator is a
                 # step generator: Limit accepts it, and what the derivative objects left in it is none of its business)
                 lcfg = dict(cls='Limit', fun='sinc', method='above', n=None, order=4, step=pool[i]['step'], points=[0.0])
